@@ -119,6 +119,12 @@ class H(Harness):
             c = self._mk(nodes, edges, f, rnd.randrange(1 << 30))
             c['dropped_before'] = self.dropped
             self.dropped = 0
+            if rnd.random() < 0.25:
+                # history: ShuffleK as the first stage of a sequence whose later stage fails in build() on ANOTHER network
+                # (the same nodes joined differently); epyc tears no such run down; then the observed run on the same objects
+                other = list(itertools.combinations(nodes, 2))
+                rnd.shuffle(other)
+                c['earlier_edges'] = [list(e) for e in other[:max(M, 3)]]
             out.append(c)
         return out
 
@@ -198,7 +204,32 @@ class H(Harness):
             return e
 
         DrawSet.draw = draw
-        dyn = StochasticDynamics(RecShuffleK(), g)
+        if case.get('earlier_edges'):
+            class Later(epydemic.Process):
+                fail = True
+
+                def build(self, params):
+                    super().build(params)
+                    if self.fail:
+                        raise RuntimeError('a later stage fails in build()')
+            later = Later()
+            g0 = RecGraph()
+            g0.add_nodes_from(nodes)
+            g0.add_edges_from([tuple(e) for e in case['earlier_edges']])
+            dyn = StochasticDynamics(epydemic.ProcessSequence([RecShuffleK(), later]), g0)
+            try:
+                dyn.set({ShuffleK.REWIRE_FRACTION: 1.0}).run(fatal=True)
+            except Budget:
+                pass
+            except Exception:
+                pass
+            later.fail = False
+            dyn.setNetworkGenerator(g)
+            del events[:]
+            del swaps[:]
+            rec['pending'] = None
+        else:
+            dyn = StochasticDynamics(RecShuffleK(), g)
         end = {}
         dyn.simulationEnded = lambda res: end.update(nodes=list(dyn.network().nodes()), edges=list(dyn.network().edges()),
                                                      cls=type(dyn.network()).__name__)
